@@ -203,4 +203,91 @@ def apply (b : Block) : Option Block :=
   let (b', s) := Visitor.runScoped processor b {}
   if s.unmodelled then none else some b'
 
+/-! ### local soundness against `Shared/Sem.lean`
+
+`NumOps` is abstract and `sqrt x = pow x 0.5` is NOT one of its laws (IEEE doubles violate it on
+`-0`, `-∞` and on rare finite values where `pow` is not correctly rounded). The expression hook is
+exact relative to that law at the argument's value, for the standard `math` table, with at least
+two levels of library-call fuel (`k = d + 2`: `callVal` and `libCall` each consume one; with less
+the ORIGINAL times out while `^` does not). `processExpression_not_exact` shows the law cannot be
+dropped. The statement hook (dropping `math.sqrt(x)` used as a statement and keeping the
+arguments that `Evaluator::has_side_effects` flags) rests on property C08 and has no lemma here. -/
+
+open Sem
+section
+variable {N : NumOps} (call : CallFn N) (ρ : ExtOracle N) (env : Env N)
+
+theorem first_cons (v : Val N) (vs : List (Val N)) : first (v :: vs) = v := rfl
+theorem toNumber_num (y : N.F) : toNumber? (Val.num y : Val N) = some y := rfl
+
+/-- `math.sqrt(arg)` with the standard `math` table, on an argument that evaluates to a number -/
+theorem sqrt_call_value (d t : Nat) (kind : ArgKind) (arg : Expr) (σ σ' : State N) (vs : List (Val N)) (x : N.F)
+    (hmath : lookupVar env "math" σ = .tbl t)
+    (hsqrt : σ.rawGet t (strVal "sqrt") = .builtin "math.sqrt")
+    (harg : evalE call ρ (d + 2) env arg σ = .ok vs σ')
+    (hnum : toNumber? (first vs) = some x) :
+    evalE call ρ (d + 2) env (.call (.field (.var "math") "sqrt") none kind [arg]) σ = .ok [.num (N.sqrt x)] σ' := by
+  simp [evalE, evalEs, Res.bind, first_cons, hmath, indexVal, hsqrt, harg, callVal, libNames, libCall, hnum]
+
+/-- `arg ^ 0.5` on an argument that evaluates to a number -/
+theorem pow_value (k : Nat) (arg : Expr) (σ σ' : State N) (vs : List (Val N)) (x : N.F)
+    (harg : evalE call ρ k env arg σ = .ok vs σ')
+    (hnum : toNumber? (first vs) = some x) :
+    evalE call ρ k env (.bin .pow arg (.num halfBits)) σ = .ok [.num (N.pow x (N.ofBits halfBits))] σ' := by
+  simp [evalE, Res.bind, first_cons, harg, binopVal, toNumber_num, hnum, arithPrim]
+
+/-- the expression hook is exact wherever `sqrt x = pow x 0.5` holds for the argument's value -/
+theorem processExpression_exact (d t : Nat) (kind : ArgKind) (arg : Expr) (σ σ' : State N) (vs : List (Val N)) (x : N.F)
+    (st : St) (hfree : st.tracker.used "math" = false)
+    (hmath : lookupVar env "math" σ = .tbl t)
+    (hsqrt : σ.rawGet t (strVal "sqrt") = .builtin "math.sqrt")
+    (harg : evalE call ρ (d + 2) env arg σ = .ok vs σ')
+    (hnum : toNumber? (first vs) = some x)
+    (hlaw : N.sqrt x = N.pow x (N.ofBits halfBits)) :
+    evalE call ρ (d + 2) env (processExpression (.call (.field (.var "math") "sqrt") none kind [arg]) st).1 σ
+      = evalE call ρ (d + 2) env (.call (.field (.var "math") "sqrt") none kind [arg]) σ := by
+  rw [sqrt_call_value call ρ env d t kind arg σ σ' vs x hmath hsqrt harg hnum]
+  simp only [processExpression, mathSqrtArg, hfree]
+  simp only [Bool.false_eq_true, if_false]
+  rw [pow_value call ρ env (d + 2) arg σ σ' vs x harg hnum, hlaw]
+
+/-- a number system in which `sqrt` and `^ 0.5` differ (as IEEE doubles do on `-0` and `-∞`) -/
+def boolOps : NumOps :=
+  { F := Bool, ofBits := fun _ => false, toBits := fun _ => 0, add := fun a _ => a, sub := fun a _ => a,
+    mul := fun a _ => a, div := fun a _ => a, mod := fun a _ => a, pow := fun _ _ => false, idiv := fun a _ => a,
+    neg := fun a => a, lt := fun _ _ => false, le := fun _ _ => true, eq := fun a b => a == b, isNaN := fun _ => false,
+    ofNat := fun _ => false, toNat? := fun _ => none, toStr := fun _ => [], ofStr := fun _ => none,
+    floor := fun a => a, sqrt := fun _ => true }
+
+def wState : State boolOps :=
+  { globals := [("math", .tbl 0)], cells := [], tables := [⟨[(strVal "sqrt", .builtin "math.sqrt")], none⟩],
+    closures := [], trace := [] }
+
+/-- without the law the rewrite is not exact -/
+theorem processExpression_not_exact :
+    ¬ ∀ (N : NumOps) (call : CallFn N) (ρ : ExtOracle N) (k : Nat) (env : Env N) (e : Expr) (st : St) (σ : State N),
+        st.tracker.used "math" = false →
+        evalE call ρ k env (processExpression e st).1 σ = evalE call ρ k env e σ := by
+  intro h
+  have h1 := h boolOps (fun _ _ _ => .timeout) (fun _ _ _ => []) 2 ⟨[], []⟩
+    (.call (.field (.var "math") "sqrt") none .tuple [.num 0]) {} wState rfl
+  have hm : lookupVar (N := boolOps) ⟨[], []⟩ "math" wState = .tbl 0 := by
+    simp [lookupVar, lookupAssoc, wState, State.getGlobal]
+  have hs : wState.rawGet 0 (strVal "sqrt") = .builtin "math.sqrt" := by
+    simp [State.rawGet, State.getTable, wState, rawGetEntries, strVal, rawEq]
+  have e1 : evalE (N := boolOps) (fun _ _ _ => .timeout) (fun _ _ _ => []) 2 ⟨[], []⟩
+      (.call (.field (.var "math") "sqrt") none .tuple [.num 0]) wState = .ok [.num true] wState :=
+    sqrt_call_value _ _ _ 0 0 .tuple (.num 0) wState wState [.num false] false hm hs (by simp [evalE, boolOps]) rfl
+  have e2 : evalE (N := boolOps) (fun _ _ _ => .timeout) (fun _ _ _ => []) 2 ⟨[], []⟩
+      (.bin .pow (.num 0) (.num halfBits)) wState = .ok [.num false] wState :=
+    pow_value _ _ _ 2 (.num 0) wState wState [.num false] false (by simp [evalE, boolOps]) rfl
+  rw [e1] at h1
+  simp only [processExpression, mathSqrtArg] at h1
+  rw [show (({} : St).tracker.used "math") = false from rfl] at h1
+  simp only [Bool.false_eq_true, if_false] at h1
+  rw [e2] at h1
+  simp at h1
+  exact Bool.noConfusion (Val.num.inj h1)
+end
+
 end DarkluaModel.Rules.ConvertSquareRootCall
